@@ -269,7 +269,7 @@ func TestC06(t *testing.T) {
 	r.Exhaustive(fmt.Sprintf("all 2^16 leading 16-bit words x %d tail templates (IPv6)", len(tails)))
 
 	// random IPv6, biased to the documented prefixes
-	nr := r.Pick(1_000_000, 100_000_000)
+	nr := r.Pick(1_000_000, 1_500_000_000)
 	mon.Parallel(nr, func(w, lo, hi int) {
 		var e, n int64
 		rng := r.Rand(uint64(300 + w))
